@@ -65,6 +65,19 @@ class RealC:
             if k == "cput":
                 col[op[2]] = op[3]
                 return "ok"
+            if k == "cputx":
+                # the put's exception is not caught inside the session: it propagates out of `with c.writing():`
+                try:
+                    col[op[2]] = op[3]
+                    return "ok"
+                except Exception as e:
+                    cm = self.cm.pop(c, None)
+                    tok = tok_err(e, "cput")
+                    try:
+                        swallowed = cm.__exit__(type(e), e, e.__traceback__)
+                    except type(e):
+                        swallowed = False
+                    return tok + ("+end" if not swallowed else "+swallowed")
             if k == "cget":
                 return "val:" + hx(col[op[2]])
             if k == "ckeys":
@@ -96,7 +109,7 @@ def line_of(op):
         return f"cnew {op[1]} {op[2]} {op[3]} {op[4]} {hx(op[5])}"
     if k == "begin":
         return f"begin {op[1]} {op[2]}"
-    if k == "cput":
+    if k in ("cput", "cputx"):
         return f"cput {op[1]} {hx(op[2].encode())} {hx(op[3])} {len(op[2])}"
     if k == "cget":
         return f"cget {op[1]} {hx(op[2].encode())}"
@@ -132,7 +145,16 @@ def gen_ops(rng, n):
                 ops.append(("ckeys", rng.below(ncol)))
         else:
             c, m = insess
-            k = rng.weighted([("cput", 12), ("cget", 5), ("ckeys", 3), ("cflush", 1), ("end", 4)])
+            k = rng.weighted([("cput", 12), ("cget", 5), ("ckeys", 3), ("cflush", 1), ("end", 4), ("cputx", 2)])
+            if k == "cputx" and m != "w":
+                k = "cput"
+            if k == "cputx":
+                # a put that must fail (duplicate of a key of this script, or an oversize key); its exception ends the session
+                prev = [o[2] for o in ops if o[0] in ("cput",) and o[1] == c]
+                key = rng.choice(prev) if prev and rng.chance(2, 3) else KEYS[3]
+                ops.append(("cputx", c, key, rng.choice(VALS)))
+                insess = None
+                continue
             if k == "cput":
                 key = rng.weighted([(KEYS[0], 3), (KEYS[1], 3), (KEYS[2], 1), (KEYS[3], 1), (KEYS[4], 1),
                                     (KEYS[5], 2), (KEYS[6], 2), (KEYS[7], 2), (KEYS[8], 1), (KEYS[9], 1), (KEYS[10], 1),
@@ -165,15 +187,43 @@ def run_seq(ctx, path: Path, ops):
     try:
         for op in ops:
             k = op[0]
-            if k in ("cput", "cget", "cflush", "end") and sess is None:
+            if k in ("cput", "cputx", "cget", "cflush", "end") and sess is None:
                 continue          # outside a session: not in the property's domain
-            if k in ("cput", "cflush") and sess[1] != "w" and not real.c[sess[0]]._backend._readonly:
+            if k in ("cput", "cputx", "cflush") and sess[1] != "w" and not real.c[sess[0]]._backend._readonly:
                 continue          # a put inside a reading() session of a writable collection is a usage error outside the claim
             col = real.c.get(op[1])
             before = None
             if col is not None and sess is not None:
                 before = sorted(col.keys())
             out = real.apply(op)
+            if k == "cputx":
+                # seen by the model as the failing put followed by the session exit (flush of what was buffered, close)
+                k = "cput"
+                op = ("cput",) + tuple(op[1:])
+                if out.endswith("+end") or out.endswith("+swallowed"):
+                    out = out.rsplit("+", 1)[0]
+                    toks.append(out)
+                    done.append(op)
+                    toks.append("ok")
+                    done.append(("end", op[1]))
+                    ctx.count("session_ended_by_escaping_put_exception")
+                    sess = None
+                    if not viol and sorted(real.c[op[1]].keys()) != before:
+                        viol = ("C02:collection-failed-put-changes-listing", f"`{short(op)}` failed with {out} but changed keys()")
+                    continue
+                # the put was accepted after all (the key it duplicates was never stored): the session is ended normally,
+                # as the generator assumed it would end
+                toks.append(out)
+                done.append(op)
+                if out == "ok" and not viol:
+                    if op[2] in ref:
+                        viol = ("C02:collection-duplicate-put-accepted", f"`{short(op)}` was accepted although the key is already stored/listed")
+                    else:
+                        ref[op[2]] = op[3]
+                toks.append(real.apply(("end", op[1])))
+                done.append(("end", op[1]))
+                sess = None
+                continue
             toks.append(out)
             done.append(op)
             if k == "cnew" and out == "ok" and op[4]:
